@@ -168,6 +168,9 @@ var sArity = map[string]int{"new": 1, "get": 1, "rm": 1, "rmf": 0, "pf": 1, "pb"
 
 // wellFormed: a plain protocol line whose node handle (if any) exists now.
 func (d *sImpl) wellFormed(t []string) bool {
+	if len(t) > 0 && strings.HasPrefix(t[0], "o.") {
+		t = append([]string{t[0][2:]}, t[1:]...)
+	}
 	n, ok := sArity[firstOr(t)]
 	if !ok || len(t) != 1+n {
 		return false
@@ -232,6 +235,13 @@ func (d *sImpl) step(t []string) string {
 		n := 0
 		body := func() bool {
 			for _, a := range acts[n] {
+				if strings.HasPrefix(a[0], "o.") { // a call on the other list of the family
+					d.step([]string{"flip"})
+					d.step(append([]string{a[0][2:]}, a[1:]...))
+					d.discover()
+					d.step([]string{"flip"})
+					continue
+				}
 				d.step(a)
 				d.discover() // at most one node is allocated per call
 			}
@@ -561,6 +571,9 @@ func checkS(c core.Case, out []string) *core.Failure {
 			}
 			for _, as := range acts { // handles must exist when the loop starts
 				for _, a := range as {
+					if len(a) > 0 && strings.HasPrefix(a[0], "o.") {
+						a = append([]string{a[0][2:]}, a[1:]...)
+					}
 					n, ok := sArity[firstOr(a)]
 					if !ok || len(a) != 1+n {
 						return nil
@@ -586,7 +599,7 @@ func checkS(c core.Case, out []string) *core.Failure {
 					ys = append(ys, "!")
 					break
 				}
-				for _, x := range s {
+				for _, x := range append(append([]sCell{}, s...), parked...) {
 					if x.id == cur {
 						if t[0] == "allbody" {
 							ys = append(ys, strconv.Itoa(x.v))
@@ -599,6 +612,15 @@ func checkS(c core.Case, out []string) *core.Failure {
 					if len(a) == 0 {
 						return nil
 					}
+					if strings.HasPrefix(a[0], "o.") { // on the other list
+						s, parked = parked, s
+						_, ok := exec(append([]string{a[0][2:]}, a[1:]...))
+						s, parked = parked, s
+						if !ok {
+							return nil
+						}
+						continue
+					}
 					if _, ok := exec(a); !ok {
 						return nil
 					}
@@ -608,9 +630,11 @@ func checkS(c core.Case, out []string) *core.Failure {
 				}
 				n++
 				nx := -1
-				for k := range s {
-					if s[k].id == cur && k+1 < len(s) {
-						nx = s[k+1].id
+				for _, q := range [][]sCell{s, parked} { // the node may be in the other list by now
+					for k := range q {
+						if q[k].id == cur && k+1 < len(q) {
+							nx = q[k+1].id
+						}
 					}
 				}
 				cur = nx
@@ -776,7 +800,7 @@ func genS(r *core.Rand, tier string) core.Case {
 			}
 			length++
 		case 12: // range over the list while the body mutates it
-			lines = append(lines, sLoopLine(r, &ids, &det, &next))
+			lines = append(lines, sLoopLine(r, &ids, &det, &next, nil))
 			length = len(ids)
 		case 11:
 			switch r.Intn(5) {
